@@ -92,6 +92,13 @@ namespace wit {
         for i in range(n):
             src += 'VERIF_ASSERT( "order:%s:%d", wit::order_check< wit::%s, %d >::value );\n' % (name, i, name, i)
             obl.append(('order:%s:%d' % (name, i), '%s: sorted entry %d agrees with cccd_indices[%d] and the by-UUID lookup' % (name, i, i)))
+    # ground truth for the attribute index a queue entry is resolved to: the index of the characteristic declaration in the attribute table, counted by hand from the
+    # witness declarations (service declaration + include declarations + 2..4 attributes per preceding characteristic), in priority order
+    expected = {'srv_layout': (2, 5, 12), 'srv_includes': (3, 10, 20), 'srv_dup_uuid': (8, 1, 4)}
+    for name, idxs in sorted(expected.items()):
+        for i, want in enumerate(idxs):
+            src += 'VERIF_ASSERT( "attr-index:%s:%d", wit::order_check< wit::%s, %d >::entry::first_attribute_index == %d );\n' % (name, i, name, i, want)
+            obl.append(('attr-index:%s:%d' % (name, i), '%s: queue entry %d is resolved to attribute index %d (its characteristic declaration; services with include declarations)' % (name, i, want)))
     run_witness(chk, 'order-witness', 'c10_order', src, obl)
     # l2cap_output
     for fn in variants(facts, 'bluetoe::server::l2cap_output', chk):
